@@ -106,6 +106,7 @@ func main() {
 		self, _ := os.Executable()
 		fw.Isolate = []string{self, id}
 	}
+	fw.HangDir = *work
 	cfg := &fw.Config{Seed: *seed, Tier: *tier, Work: *work, Driver: *driver, Replays: *replays, Corpus: *corpus,
 		Known: fw.LoadKnown(*known), ReplayFile: *replay}
 	if d, ok := p.(interface{ Describe(*fw.Config) }); ok {
